@@ -46,6 +46,12 @@ def main():
             entry='set_sim_join', measure=measure, kernel='free', comp_ops=ops, nl=1, nr=2,
             k=1, kmin=0, props=P)), bounds=dict(kernel='unconstrained stubs', rows='1x2', k=1,
                                                 threshold='symbolic double in (0,1]'))
+    # the verification step with symbolic set sizes and a symbolic double threshold
+    from harness import h_verify
+    ck.e2('verify-step', h_verify.make(dict(measures=['JACCARD', 'COSINE', 'DICE', 'OVERLAP_COEFFICIENT'],
+                                            N=32 if quick else 64, comp_ops=ops, props=P)),
+          bounds=dict(sizes='all 1 <= overlap <= min(n,m), n,m <= %d' % (32 if quick else 64),
+                      threshold='every double in [1e-4, 1]'), chunk_paths=1, split=2)
     # whole API over the pandas model: positional row ids after dropna, per-job chunks
     for e in stages.SET_JOINS:
         ck.e2('api-%s' % e, h_join.make(stages.join_cfg(
